@@ -334,6 +334,56 @@ theorem C18_hexToBin_examples :
     hexToBin 3 "0xg".toList = none ∧ hexToBin 3 "0x".toList = none ∧ hexToBin 3 "".toList = none := by
   decide +kernel
 
+/-! ### Known finding: the name of a controlled gate ignores the control state
+
+Full statement ("the Qobj says what the circuit is", for controlled gates): the reported name denotes the
+gate's own control state,
+
+    theorem C18_ctrl_name_says_control_state (target cs nm) :
+        ctrlQasmName target cs = some nm → nameCtrlState nm = some cs
+
+It is false for the code as it is (`known_findings.json`, key `C18:qobj:negated-control-serialised-as-plain`):
+`as_qasm` never looks at `ctrl_state`. Proved below: the statement restricted to all-ones control states,
+and its negation on the concrete witness. -/
+
+/-- for the standard control state (all controls |1>) the name says what the gate is -/
+theorem C18_ctrl_name_says_control_state_partial (target : String) (cs : List Bool) (nm : String)
+    (hcs : ∀ b ∈ cs, b = true) (h : ctrlQasmName target cs = some nm) : nameCtrlState nm = some cs := by
+  unfold ctrlQasmName at h
+  match cs, hcs, h with
+  | [b], hcs, h =>
+    have hb : b = true := hcs b (by simp)
+    subst hb
+    simp only [List.length_singleton] at h
+    have hm : (target, nm) ∈ ctrl1Names := by
+      obtain ⟨l1, l2, hl, _⟩ := List.lookup_eq_some_iff.mp h
+      rw [hl]; simp
+    simp only [ctrl1Names, List.mem_cons, Prod.mk.injEq, List.not_mem_nil, or_false] at hm
+    rcases hm with ⟨_, rfl⟩ | ⟨_, rfl⟩ | ⟨_, rfl⟩ | ⟨_, rfl⟩ | ⟨_, rfl⟩ | ⟨_, rfl⟩ | ⟨_, rfl⟩ | ⟨_, rfl⟩ | ⟨_, rfl⟩ <;> decide
+  | [b1, b2], hcs, h =>
+    have h1 : b1 = true := hcs b1 (by simp)
+    have h2 : b2 = true := hcs b2 (by simp)
+    subst h1 h2
+    simp only [List.length_cons, List.length_nil] at h
+    split at h
+    · simp only [Option.some.injEq] at h; subst h; decide
+    · cases h
+  | [], _, h => simp at h
+  | _ :: _ :: _ :: _, _, h => simp at h
+
+/-- the witness: a Z (or X) controlled on |0> is reported as plain `cz` (`cx`), whose meaning is control on |1>;
+a Toffoli-like gate activated by |10> is reported as `ccx` -/
+theorem C18_known_negated_control_witness :
+    (ctrlQasmName "z" [false] = some "cz" ∧ nameCtrlState "cz" = some [true] ∧ nameCtrlState "cz" ≠ some [false]) ∧
+    (ctrlQasmName "x" [false] = some "cx" ∧ nameCtrlState "cx" ≠ some [false]) ∧
+    (ctrlQasmName "x" [true, false] = some "ccx" ∧ nameCtrlState "ccx" ≠ some [true, false]) ∧
+    ¬ (∀ target cs nm, ctrlQasmName target cs = some nm → nameCtrlState nm = some cs) := by
+  refine ⟨by decide, by decide, by decide, ?_⟩
+  intro h
+  have := h "z" [false] "cz" (by decide)
+  revert this
+  decide
+
 /-! ### Non-vacuity -/
 
 example : Valid qsimConfig 1024 [exH 0, exCz 0 2, exRx 1, exMeasure [0, 1, 2] [0, 1, 2]] := by decide
